@@ -627,3 +627,22 @@ _extend("C16",
     lean_modules=["EsbuildModel.Props.C16Json"],
     theorems=_thms("C16Json", "json_total json_token_progress json_fuel_irrelevant"),
     kernels=[("jsonrt", 6000, 100000)])
+
+# csslex (C16 / C12): the CSS tokenizer and the printing of single tokens
+_extend("C16",
+    lean_modules=["EsbuildModel.Props.C16CssLex", "EsbuildModel.Props.C16CssSyntax"],
+    theorems=_thms("C16CssLex", "lexer_total token_ranges_inside token_ranges_ordered cover_ranges cover_ordered startState_raw")
+             + _thms("C16CssSyntax", "lexer_is_css_syntax_3_partial tame_of_input tameInput_of_check"),
+    kernels=[("csslex", 8000, 120000)],
+    open=["C16CssSyntax.lexer_is_css_syntax_3 with the standard readings, without TameInput and with URL values compared: FALSE of the code (four readings numberTrailingDot / badUrlSkipsAfterEscape / eofStringIsBad / stringHexEscapeKeepsNewline; excluded inputs NUL, hex escape + CR LF, '-' + ill-formed byte; URL value offsets) — each shown by an example in the Props file and run on the real tokenizer; observations (error recovery differences), except the URL offset which is known finding c12-escaped-url-function-name",
+          "csslex: ApproximateLineCount, legal comment text, log messages, RangeOfIdentifier are not modelled"],
+    scope="internal/css_lexer/css_lexer.go: Tokenize, step, next, consumeToEndOfMultiLineComment, isValidEscape, wouldStartIdentifier, wouldStartNumber, consumeName, consumeEscape, consumeIdentLike, consumeURL (incl. bad-url remnants), consumeString, consumeNumeric, character classes, decodeEscapesInToken, Token.DecodedText — modelled (Impl/CssLex.lean, CssLexTok.lean) against CSS Syntax 3 sections 3.3 + 4 (Spec/CssSyntax.lean); total by well-founded recursion without fuel",
+    assumptions=["csslex: input decoded once with Go's utf8.DecodeRuneInString semantics (one U+FFFD per ill-formed BYTE); lexer state = suffix of decoded runes; offsets below 2^31; Spec = CSS Syntax 3 CR 16 July 2019; numeric tokens compared by representation; runs of whitespace tokens collapsed on both sides"])
+_extend("C12",
+    lean_modules=["EsbuildModel.Props.C12CssPrint"],
+    theorems=_thms("C12CssPrint", "escape_roundtrip string_roundtrip initialEscape_ne_hex"),
+    kernels=[("csslex", 8000, 120000)],
+    open=["C12CssPrint.print_relex for token LISTS: FALSE of the code (printTokens has no needs-whitespace-between logic; tokens separated only by a comment are printed glued together: known finding c12-tokens-glued-across-comment) — proved per token only: printIdent (identifier/function/at/hash texts) and printQuoted; dimension units, unquoted url(), printTokens nesting are covered by the correspondence only",
+          "C12CssPrint: remaining hypotheses are necessary: no U+0000 (printIdent writes it raw, printQuoted as \\0: both re-read as U+FFFD), valid UTF-8 text (ill-formed byte under ASCIIOnly: known finding c12-escaped-url-function-name), FollowOK (what follows does not continue the name / start an escape; whitespace only under mayNeedWhitespaceAfter)"],
+    scope="internal/css_printer/css_printer.go: printIdent, printWithEscape (with isShort), printQuoted, printQuotedWithQuote, bestQuoteCharForString, printIndent, functionMultiLineCommaPeriod, printTokens (MinifyWhitespace, ASCIIOnly, InlineStyle feature; LineLimit 0) — modelled (Impl/CssPrint.lean); re-lexing the printed text of an identifier or string gives back its code points",
+    assumptions=["csslex print: fmt.Sprintf(\"%x\") as hexDigitsOf; strings.ToLower compared with ASCII literals only; URL text passed inline instead of through importRecords"])
